@@ -12,6 +12,7 @@
 from __future__ import annotations
 
 import io
+import itertools
 import socket
 import threading
 from urllib.parse import quote, unquote
@@ -394,6 +395,10 @@ def check_exchange(S, rec, rng):
         chunks = [c for c in chunks if c] or [b"xyz"]
 
     reuse_headers = plan == "normal" and rng.random() < 0.25
+    # schedule inside one request: the application sends its first body bytes before it reads the request body
+    respond_first = plan == "normal" and not reuse_headers and any(chunks) and rng.random() < (0.7 if expect else 0.25)
+    if respond_first:
+        rec.observe("applications_responding_before_reading")
     shared_h = []
 
     FAIL_WITH = rng.choice([ZeroDivisionError, ZeroDivisionError, FileNotFoundError, OSError, PermissionError, KeyError])
@@ -419,6 +424,30 @@ def check_exchange(S, rec, rng):
             raise
 
     def app_body(environ, start_response):
+        if respond_first:
+            h0 = [("X-App", "1"), ("X-App", "2")] + ([("Content-Length", str(sum(map(len, chunks))))] if with_cl else [])
+            w0 = start_response(status, h0)
+            first_i = next(i for i, c in enumerate(chunks) if c)
+            for c in chunks[:first_i + 1]:
+                w0(c)
+            seen["body"] = read_body(environ)
+            return list(chunks[first_i + 1:])
+        return app_body2(environ, start_response)
+
+    def read_body(environ):
+        inp = environ["wsgi.input"]
+        got = b""
+        if environ.get("wsgi.input_terminated"):
+            for op in pattern * 100:
+                x = inp.readline() if op == "line" else inp.read() if op == "all" else inp.read(op if isinstance(op, int) else 4)
+                got += x
+                if not x:
+                    break
+        else:
+            got = inp.read(int(environ.get("CONTENT_LENGTH") or 0))
+        return got
+
+    def app_body2(environ, start_response):
         inp = environ["wsgi.input"]
         got = b""
         if environ.get("wsgi.input_terminated"):
@@ -511,7 +540,7 @@ def check_exchange(S, rec, rng):
     payload = b"".join(chunks)
     if use_chunked or payload:
         rec.nontrivial(hash((raw, status, with_cl, tuple(chunks), use_write, version, tuple(pattern))) & 0xFFFFFFFFFFFFFFFF)
-    case = {"part": "exchange", "request": raw, "read_pattern": pattern, "status": status, "with_content_length": with_cl, "chunks": chunks, "write_callable": use_write, "version": version}
+    case = {"part": "exchange", "request": raw, "read_pattern": pattern, "status": status, "with_content_length": with_cl, "chunks": chunks, "write_callable": use_write, "version": version, "respond_before_reading": respond_first}
     try:
         if reuse_headers:
             drive(S, raw, app, version)  # history: this is the application's second request, served like the first
@@ -661,6 +690,51 @@ def check_exchange(S, rec, rng):
         rec.sample({"request_line": f"{method} {line} {version}", "chunked_request": use_chunked, "status": status, "response_head": out.split(b"\r\n\r\n")[0].decode("latin-1")[:200]})
 
 
+def check_two_requests_on_one_connection(S, rec, rng):
+    """History on one connection: a request whose body the application does not read, then a second request (a client
+    that asked for keep-alive and pipelines).  Whatever the server does with the connection, the application is only ever
+    called for requests the client sent, and every response on the wire is a well-formed answer to one of them."""
+    for version, ka, unread in itertools.product(("HTTP/1.1", "HTTP/1.0"), (True, False), (b"name=value&other=1", b"DELETE /account/42 HTTP/1.1\r\nHost: h.example\r\n\r\n", b"")):
+        calls = []
+
+        def app(environ, start_response):
+            calls.append((environ["REQUEST_METHOD"], environ["PATH_INFO"]))
+            body = b"refused" if environ["PATH_INFO"] == "/first" else b"second"
+            start_response("403 Forbidden" if environ["PATH_INFO"] == "/first" else "200 OK", [("Content-Length", str(len(body)))])
+            return [body]  # the request body stays unread
+
+        first = (b"POST /first HTTP/1.1\r\nHost: h.example\r\n" + (b"Connection: keep-alive\r\n" if ka else b"") + b"Content-Length: " + str(len(unread)).encode() + b"\r\n\r\n" + unread)
+        second = b"GET /second HTTP/1.1\r\nHost: h.example\r\n" + (b"Connection: keep-alive\r\n" if ka else b"") + b"\r\n"
+        case = {"part": "two-requests-one-connection", "version": version, "keep_alive_requested": ka, "unread_body": unread}
+        rec.case()
+        rec.nontrivial(("two-requests", version, ka, unread))
+        rec.observe("connections_with_two_requests")
+        try:
+            out = drive(S, first + second, app, version)
+        except Exception as e:  # noqa: BLE001
+            rec.observe("exchange_harness_errors")
+            rec.note(f"two-request harness error {type(e).__name__}: {e}")
+            continue
+        sent = [("POST", "/first"), ("GET", "/second")]
+        if any(c not in sent for c in calls) or calls[:1] != sent[:1] or len(calls) > 2 or calls.count(("POST", "/first")) > 1:
+            rec.violation("C19/application-called-for-a-request-nobody-sent", f"the client sent {sent!r} on one connection; the application was called for {calls!r}", case, monitor="request-side")
+            continue
+        # the wire: one or two complete responses, the first one answering /first
+        rest, answers = out, []
+        while rest:
+            resp = parse_response(rest)
+            if resp is None:
+                answers.append(None)
+                break
+            cl = [v for k, v in resp["headers"] if k.lower() == "content-length"]
+            n_ = int(cl[0]) if cl else len(resp["rest"])
+            answers.append((resp["code"], resp["rest"][:n_]))
+            rest = resp["rest"][n_:]
+        want = [(403, b"refused"), (200, b"second")]
+        if answers[:len(calls)] != want[:len(calls)] or len(answers) > 2 or None in answers:
+            rec.violation("C19/responses-on-a-shared-connection-differ", f"application calls {calls!r}; the client received {answers!r}", case, monitor="wire-parser")
+
+
 # ---------------------------------------------------------------------------------------------
 # (C) live threaded server
 
@@ -754,6 +828,7 @@ def run(shard, rec, rng):
         check_dechunk(S, rec, rng)
     for _ in range(cfg["exchanges"]):
         check_exchange(S, rec, rng)
+    check_two_requests_on_one_connection(S, rec, rng)
     reach.finish()
     contracts.report(rec)
 
